@@ -4,6 +4,24 @@ import json, os
 ROOT = os.path.dirname(os.path.abspath(__file__))
 
 CLAIMED = {
+ 'C01': dict(
+    category='other',
+    text='Two engines. (E2) z3 lexical lemmas generated from the current source (the STRING escape/unescape literals of serialize_value / '
+         'deserialize_value, the format idioms of the other types, the t_* token regexes in PLY order, p_value / p_negative_value / p_identifier): for EVERY '
+         'string over all code points up to length 3 (4 thorough) the escaped, quoted text un-escapes to the same string, is exactly one STRING token, is not '
+         'extended or cut short by the scanner and is not stolen by an earlier rule; the serialised forms of integers, reals, booleans and ids are included in '
+         'the corresponding token language with exact extent (regular-language inclusion, strings up to 48 chars); every identifier [A-Za-z_]\\w* not starting '
+         'with R<digit> is one ID token. unsat = holds; sat models are replayed through the real serialize/load. (E1) structural round trip under CrossHair: '
+         'schema families (all five core types with two identifiers; 1:M, 1:1 with phrases, reflexive, association class, composite (string,integer) key, '
+         'subtype/supertype; 23 SQL keywords / cardinality words as class, attribute and index names) x 6 routes (serialize_database, serialize() dispatch on the '
+         'model and piecewise on classes/associations/instances, three separate texts in scrambled order, persist_database, persist_schema+instances+identifiers) '
+         'with one value dimension swept over its pool per condition and every link state: signature (classes, types, associations, identifiers, ordered instance '
+         'tuples, links by navigation) is preserved and re-serialising is a fixed point after one round; instances-only input keeps values and guessed types.',
+    design_ref='DESIGN.md section 5, C01',
+    note='E1 values are case-split from pools and realised (they pass the lexer); \\d / \\w are modelled as ASCII in E2; the meaning of %d, %f and uuid.UUID '
+         'formatting is trusted; phrases with quotes, inf/nan, ids >= 2^128 and R<digits> identifiers are outside the claim. Known finding: CR inside strings '
+         'becomes LF through the file routes (listed in known_findings.json).',
+    technique='z3 string/regex lemmas generated from the source + bounded symbolic execution of the real code (CrossHair + z3)'),
  'C12': dict(
     category='other',
     text='PARTIAL (build phase + atomicity of input(); scanner totality on arbitrary text is not claimed). Bounded-exhaustive symbolic execution of the real '
